@@ -163,6 +163,9 @@ class UnimodalPdf(DensityEstimator):
         upr = self.mode + 5 * max(exp(f), 1.0) * s
         x = linspace(lwr, upr, 1000)
         p = self(x)
+        # the grid covers a finite range, so re-normalise the tabulated density on
+        # it: otherwise the mean is scaled by the captured mass (not shift-covariant)
+        p = p / simpson(p, x=x)
 
         mu = simpson(p * x, x=x)
         var = simpson(p * (x - mu) ** 2, x=x)
